@@ -29,6 +29,7 @@ func init() {
 		},
 		TrustedBase: []string{"capability worklist checker/core/cap.go over VTA∪CHA call resolution", "sink/pure classification table in checker/props/c18.go"},
 		Rules: []core.Rule{
+			{ID: "R18.10", Template: "T-CAP", Text: "the default (fake) clock/random/sleep sources do not depend on the host (time zone, environment, real clock)", Min: 1},
 			{ID: "R18.9", Template: "T-MUSTPASS", Text: "what a host (WASI) function receives does not depend on the engine: the compiler's Go side zero-extends the 32-bit argument slots, as the interpreter passes them (same analysis as C08 R08.9)", Min: 4},
 			{ID: "R18.8", Template: "T-CONSULT", Text: "fd_prestat_* answer only for pre-opened directories: stdio is not reported under the default configuration (genuine defect found and fixed)", Min: 1},
 			{ID: "R18.1", Template: "T-CAP", Text: "no ambient-authority sink reachable from the WASI functions except through injection points; every external callee classified", Min: 3},
@@ -41,6 +42,7 @@ func init() {
 		},
 		Run: runC18,
 		Controls: []core.Control{
+			{Name: "fake-epoch-in-local-time", File: "internal/platform/time.go", Old: "\tFakeEpochNanos = 1640995200000 * ms\n)\n", New: ")\n\nvar FakeEpochNanos = time.Date(2022, time.January, 1, 0, 0, 0, 0, time.Local).UnixNano()\n", Rule: "R18.10", Substr: "fake"},
 			{Name: "wasi-args-not-zero-extended-on-the-compiler", File: "internal/engine/wazevo/call_engine.go", Old: "\t\t\tclearUpper32Bits(s, hostFunctionParamTypes(c.execCtx.goFunctionCallCalleeModuleContextOpaque, index))\n\t\t\tfunc() {\n\t\t\t\tif snapshotEnabled {\n\t\t\t\t\tdefer snapshotRecoverFn(c)\n\t\t\t\t}\n\t\t\t\tf.Call(ctx, mod, s)", New: "\t\t\tfunc() {\n\t\t\t\tif snapshotEnabled {\n\t\t\t\t\tdefer snapshotRecoverFn(c)\n\t\t\t\t}\n\t\t\t\tf.Call(ctx, mod, s)", Rule: "R18.9", Substr: "ExitCodeCallGoModuleFunction"},
 			{Name: "prestat-reports-stdio", File: "imports/wasi_snapshot_preview1/fs.go", Old: "\t} else if isDir, errno := f.File.IsDir(); errno != 0 {\n\t\treturn \"\", errno\n\t} else if !isDir {", New: "\t} else if isDir, errno := f.File.IsDir(); errno != 0 || !isDir {\n\t\treturn \"\", errno\n\t} else if !isDir {", Rule: "R18.8", Substr: "preopenPath"},
 			{Name: "wasi-called-with-another-guests-module", File: "internal/engine/interpreter/interpreter.go", Old: "\t\t\t\t// Revert to a normal call.\n\t\t\t\tce.callFunction(ctx, f.moduleInstance, tf)", New: "\t\t\t\t// Revert to a normal call.\n\t\t\t\tce.callFunction(ctx, m, tf)", Rule: "R18.7", Substr: "calling module"},
@@ -239,6 +241,7 @@ func injectionCut(c *core.Ctx) func(site ssa.CallInstruction, in *ssa.Function) 
 
 func runC18(c *core.Ctx) {
 	checkPrestatOnlyDirectories(c)
+	checkFakeClockHostIndependent(c)
 	checkSlotNormalisation(c, "R18.9", "")
 	c.SSA()
 	checkModuleConfigNotWritten(c)
